@@ -48,6 +48,12 @@ struct H {
                     } else {   // alias: mirrors the array in both directions
                         std::vector<double> data; a.getData(data);
                         c.check(t == data, "C13/alias/ticks-are-data", [&] { return "alias ticks " + vD(t) + " array data " + vD(data) + " (" + when + ")"; });
+                        // the partial accessors read the same data
+                        if (!t.empty()) { size_t k = r.u(t.size()), st = r.u(t.size()), cn = r.u(t.size() - st + 1);
+                            double one = s.tickAt(k); c.check(one == data[k], "C13/alias/tickAt", [&] { return "alias tickAt(" + str(k) + ") = " + dstr(one) + ", array element " + dstr(data[k]) + " (" + when + ")"; });
+                            std::vector<double> part = s.ticks(st, cn), ax = cn ? s.axis(cn, st) : std::vector<double>(), wantp(data.begin() + (long)st, data.begin() + (long)(st + cn));
+                            c.check(part == wantp, "C13/alias/ticks-part", [&] { return "alias ticks(" + str(st) + "," + str(cn) + ") = " + vD(part) + ", array data there " + vD(wantp) + " (" + when + ")"; });
+                            c.check(ax == wantp, "C13/alias/axis", [&] { return "alias axis(" + str(cn) + "," + str(st) + ") = " + vD(ax) + ", array data there " + vD(wantp) + " (" + when + ")"; }); }
                         c.check(t == w.ticks, "C13/alias/ticks-model", [&] { return "alias ticks " + vD(t) + " expected " + vD(w.ticks) + " (" + when + ")"; });
                         c.check(s.label() == a.label() && s.label() == w.label, "C13/alias/label", [&] { return "alias label " + optS(s.label()) + " array label " + optS(a.label()) + " expected " + optS(w.label) + " (" + when + ")"; });
                         c.check(s.unit() == a.unit() && s.unit() == w.unit, "C13/alias/unit", [&] { return "alias unit " + optS(s.unit()) + " array unit " + optS(a.unit()) + " expected " + optS(w.unit) + " (" + when + ")"; });
@@ -84,6 +90,14 @@ struct H {
                 int oc = (int)r.u(4); double off = oc == 0 ? 0.0 : oc == 1 ? (double)r.range(1, 9) * 0.25 : oc == 2 ? -(double)r.range(1, 9) * 0.25 : r.real();
                 std::string lbl = r.chance(0.5) ? gen_label() : "", un = r.chance(0.5) ? (r.chance(0.8) ? "ms" : "mV") : "";
                 bool use_full = r.chance(0.7);
+                if (use_full && r.chance(0.15)) {
+                    static const char *bad[] = {"furlong", "parsecs", "foo", "m V", "mVs??"}; un = r.pick(bad);
+                    c.op(std::string("appendSampledDimension non-SI-unit") + (ic == 0 ? "" : " illegal-interval") + " | " + un);
+                    bool thr = false; try { a.appendSampledDimension(iv, lbl, un, off); } catch (std::exception &) { thr = true; }
+                    c.check(thr, "C13/illegal-accepted/appendSampledDimension/non-SI-unit", "appendSampledDimension accepted unit '" + un + "'");
+                    if (!thr) { MD d; d.kind = DimensionType::Sample; d.interval = iv; if (!lbl.empty()) d.label = lbl; d.unit = un; if (off != 0.0) d.offset = off; m.push_back(d); }
+                    break;
+                }
                 c.op(std::string("appendSampledDimension ") + (ic == 0 ? "legal-interval" : ic == 1 ? "zero-interval" : "negative-interval") + (oc == 2 ? " negative-offset" : oc == 0 ? " zero-offset" : " positive-offset") + " | iv=" + dstr(iv) + " off=" + dstr(off));
                 bool threw = false; try { if (use_full) a.appendSampledDimension(iv, lbl, un, off); else a.appendSampledDimension(iv); } catch (std::exception &) { threw = true; }
                 if (ic != 0) { c.check(threw, std::string("C13/illegal-accepted/appendSampledDimension/") + (ic == 1 ? "zero-interval" : "negative-interval"), "appendSampledDimension accepted interval " + dstr(iv)); if (!threw) { MD d; d.kind = DimensionType::Sample; d.interval = iv; if (use_full) { if (!lbl.empty()) d.label = lbl; if (!un.empty()) d.unit = un; if (off != 0.0) d.offset = off; } m.push_back(d); } }
@@ -93,6 +107,14 @@ struct H {
             case 1: {   // append range
                 bool legal = r.chance(0.8); std::vector<double> t = gen_ticks(legal); if (!legal && sorted(t)) legal = true;
                 std::string lbl = r.chance(0.5) ? gen_label() : "", un = r.chance(0.5) ? "mV" : "";
+                if (r.chance(0.15)) {   // a refused append (non-SI unit) leaves the descriptor list as it was: compare() below sees a half-built descriptor
+                    static const char *bad[] = {"furlong", "parsecs", "foo", "m V", "mVs??"}; un = r.pick(bad);
+                    c.op(std::string("appendRangeDimension non-SI-unit") + (legal ? "" : " unsorted-ticks") + " | " + un);
+                    bool thr = false; try { a.appendRangeDimension(t, lbl, un); } catch (std::exception &) { thr = true; }
+                    c.check(thr, "C13/illegal-accepted/appendRangeDimension/non-SI-unit", "appendRangeDimension accepted unit '" + un + "'");
+                    if (!thr) { MD d; d.kind = DimensionType::Range; d.ticks = t; if (!lbl.empty()) d.label = lbl; d.unit = un; m.push_back(d); }
+                    break;
+                }
                 c.op(std::string("appendRangeDimension ") + (legal ? "sorted-ticks" : "unsorted-ticks") + " | " + vD(t));
                 bool threw = false; try { a.appendRangeDimension(t, lbl, un); } catch (std::exception &) { threw = true; }
                 if (!legal) c.check(threw, "C13/illegal-accepted/appendRangeDimension/unsorted-ticks", "appendRangeDimension accepted unsorted ticks " + vD(t));
